@@ -1,25 +1,33 @@
 (* C02 — non-consuming reads never change what later reads or counts see.  Pinned statements only;
    proofs in proofs/EngineC02.v and proofs/EngineMain.v. *)
 From W Require Import gen.Consts model.Base model.Engine model.EngineCfg spec.Queue
-  proofs.EngineWF proofs.EngineInv proofs.EngineW proofs.EngineMain proofs.EngineC02 props.C01.
+  proofs.EngineWF proofs.EngineInv proofs.EngineW proofs.EngineMain proofs.EngineC02 proofs.EngineErase props.C01.
 From Coq Require Import Lia.
 
-(* (a), partial: along every admissible restart-free history — with peeks and offset-addressed
-   reads (checkpoint true or false, any offset, any budget) interleaved at will — the model's
-   trace is accepted by the queue acceptors whose ledger IGNORES non-consuming reads: every
-   consuming read returns exactly the next unreturned entries and every count query answers
-   appended minus consumed.  So peeks and offset reads change neither which entries later
-   consuming reads deliver nor any count.  Not covered by this statement: HOW MANY entries a
-   later budgeted batch read returns (erasure of the peek from the history; decided on the
-   implementation by the metamorphic run of the check), and the reclamation bookkeeping
-   (block/file trackers are not part of model/Engine.v; see C12). *)
-Definition C02_full : Prop := forall (c : Cfg) (m : mode) (be : backend) (ops : list op),
+(* (a) erasure, in full for everything the model holds: deleting every peek (read_next or batch
+   read with checkpoint=false) and every offset-addressed read (checkpoint true or false, any
+   offset, any budget) from ANY admissible restart-free history leaves the result of every
+   remaining operation — every append, batch, consuming read (including HOW MANY entries a
+   budgeted batch read returns) and every count — exactly as it was.  Proof: a simulation; a
+   non-consuming read changes a topic's state only in the reader's hydration flag and by
+   stepping the in-memory cursor over exhausted blocks, and no operation can tell.
+   Not covered: the reclamation bookkeeping clause (the block/file trackers are not part of
+   model/Engine.v; see C12). *)
+Theorem c02_erasure : forall (c : Cfg) (m : mode) (be : backend) (ops : list op),
   cfg_ok c -> Forall (op_ok c) ops ->
-  let nonconsuming o := match o with ORead _ false | OBatchRead _ _ false None | OBatchRead _ _ _ (Some _) => true | _ => false end in
-  let kept := filter (fun o => negb (nonconsuming o)) ops in
-  filter (fun p => negb (nonconsuming (fst p))) (trace (env_of c m be) init ops) = trace (env_of c m be) init kept.
+  N.of_nat (length (offered_all ops)) <= u64_max -> sum_len (offered_all ops) <= u64_max ->
+  filter (fun p => keep (fst p)) (trace (env_of c m be) init ops) = trace (env_of c m be) init (filter keep ops).
+Proof. exact erase_from_init. Qed.
 
-Theorem c02_queue_view_partial : forall (c : Cfg) (m : mode) (be : backend) (ops : list op),
+(* what [keep] erases *)
+Example c02_keep_is : forall t e es mb st,
+  keep (OAppend t e) = true /\ keep (OBatch t es) = true /\ keep (OCount t) = true /\
+  keep (ORead t true) = true /\ keep (OBatchRead t mb true None) = true /\
+  keep (ORead t false) = false /\ keep (OBatchRead t mb false None) = false /\
+  keep (OBatchRead t mb true (Some st)) = false /\ keep (OBatchRead t mb false (Some st)) = false.
+Proof. intros; repeat split. Qed.
+
+Theorem c02_queue_view : forall (c : Cfg) (m : mode) (be : backend) (ops : list op),
   cfg_ok c -> Forall (op_ok c) ops ->
   N.of_nat (length (offered_all ops)) <= u64_max -> sum_len (offered_all ops) <= u64_max ->
   c01_ok (trace (env_of c m be) init ops) = true /\ c15_ok (trace (env_of c m be) init ops) = true.
@@ -65,15 +73,16 @@ Example c02_witness :
      REntry (out_of (e 1 3700)); REntry (out_of (e 1 3700)); RNum 1].
 Proof. vm_compute. reflexivity. Qed.
 
-Check c02_queue_view_partial : forall (c : Cfg) (m : mode) (be : backend) (ops : list op),
+Check c02_erasure : forall (c : Cfg) (m : mode) (be : backend) (ops : list op),
   cfg_ok c -> Forall (op_ok c) ops ->
   N.of_nat (length (offered_all ops)) <= u64_max -> sum_len (offered_all ops) <= u64_max ->
-  c01_ok (trace (env_of c m be) init ops) = true /\ c15_ok (trace (env_of c m be) init ops) = true.
+  filter (fun p => keep (fst p)) (trace (env_of c m be) init ops) = trace (env_of c m be) init (filter keep ops).
 Check c02_peek_and_offset_reads : forall (c : Cfg) (m : mode) (be : backend) (ops : list op),
   cfg_ok c -> Forall (op_ok c) ops ->
   N.of_nat (length (offered_all ops)) <= u64_max -> sum_len (offered_all ops) <= u64_max ->
   c02c_ok (trace (env_of c m be) init ops) = true /\ c02b_ok (trace (env_of c m be) init ops) = true.
-Print Assumptions c02_queue_view_partial.
+Print Assumptions c02_erasure.
+Print Assumptions c02_queue_view.
 Print Assumptions c02_peek_and_offset_reads.
 Print Assumptions c02_batch_peek_then_consume.
 Print Assumptions c02_subranges_any_state.
